@@ -9,6 +9,8 @@ def check(ctx):
     ng = tz.check_utc_guard(ctx, rep)
     rep.floor("zone-omission guard obligations", ng, 3)
     nz = tz.check_zone_names(ctx, rep)
+    tz.check_zone_name_reader(ctx, rep)
+    tz.check_named_zone_constructor(ctx, rep)
     rep.floor("zone-name table obligations (T-ZONES)", nz, 2)
     from rules import tz as _tzr
     nr = _tzr.check_component_rebuild(ctx, rep)
